@@ -46,6 +46,16 @@ def clusterStep (blur : Int) (acc : List Call) (line : Call) : List Call :=
 def clusterIndels (blur : Int) (calls : List Call) : List Call :=
   (calls.foldl (clusterStep blur) []).reverse
 
+/-- `sorted(lines, key=operator.itemgetter(1, 3))` (write_indel_files.py:62-63, 67): stable sort by
+    (Chromosome, RefStop) = stable sort by RefStop, then stable sort by Chromosome -/
+def sortCalls (l : List Call) : List Call := isort (·.chrom) (isort (·.rStop) l)
+
+/-- the data lines of `write_indel_file` (write_indel_files.py:48-77): each type is sorted and clustered on
+    its own (default blur 30000), the clusters of both types are merged by one more stable sort, deletions first
+    among equals -/
+def indelFile (blur : Int) (insertions deletions : List Call) : List Call :=
+  sortCalls (clusterIndels blur (sortCalls deletions) ++ clusterIndels blur (sortCalls insertions))
+
 /-- the unrepaired loop: a near call with another key is dropped (F4) -/
 def clusterStepBuggy (blur : Int) (acc : List Call) (line : Call) : List Call :=
   match acc with
